@@ -13,6 +13,9 @@
     same   <cfgA> <cfgB>                    the two dumps are identical (modulo user globals)
     probe  <cfg> <owner> <prop> <jshex>     a distinguishing call of the built-in function evaluates to true
     noprobe <owner> <prop>                  a built-in function without a probe (always a disagreement)
+    objkind <cfg> <owner> <prop|@self>      internal representation "<class>:<objectClass>:<Go type of value>" (hook)
+    kind   <cfg> <owner> <aspect>           behaviour of a start-up object as the special object ES5 says it is (on a throw-away Copy)
+    beh    <cfg> <name>                     the same behaviours for arrays / String objects / arguments objects the language creates
     dynfn  <cfg> <kind> <L> <n> <field>     shape of a function object created at run time (L parameters, n bound arguments)
   <cfg> ∈ fresh fresh2 under copy copy2 usedcopy undercopy; the tables do not depend on it except for the
   user globals (`_`, `userFn`, `userGlobal`) that for-in over the global object rightly shows.
@@ -49,7 +52,10 @@ def listAll : String :=
   let li := Spec.links.map (fun (k, _) => "link/" ++ k)
   let bs := (Spec.flatten Model.bindTable).map (fun (o, p, _) => "bind/" ++ o.path ++ "/" ++ p)
   let ss := Model.selfTable.map (fun (o, _) => "bind/" ++ o.path ++ "/@self")
-  ",".intercalate (es ++ os ++ fi ++ li ++ bs ++ ss)
+  let ks := (Spec.flatten Model.kindTable).map (fun (o, p, _) => "objkind/" ++ o.path ++ "/" ++ p)
+  let as := Spec.Owner.all.flatMap (fun o => (Spec.aspectsOf o).map (fun a => "kind/" ++ o.path ++ "/" ++ a))
+  let be := Spec.behaviours.map (fun (k, _) => "beh/" ++ k)
+  ",".intercalate (es ++ os ++ fi ++ li ++ bs ++ ss ++ ks ++ as ++ be)
 
 def isFnSlot (t : Spec.Slot) : Bool :=
   match t.val with
@@ -95,6 +101,20 @@ def handleO (ws : List String) : Option String :=
     let o ← Spec.Owner.ofPath? o
     let s ← (if p = "@self" then Spec.assoc o Model.selfTable else Spec.lookup Model.bindTable o p)
     pure (reply s s "-")
+  | ["objkind", cfg, o, p] => do
+    guard (cfgs.contains cfg)
+    let o ← Spec.Owner.ofPath? o
+    let m ← Spec.lookup Model.kindTable o p
+    pure (reply m (if p = "@self" then Spec.repOf o else m) "-")
+  | ["kind", cfg, o, a] => do
+    guard (cfgs.contains cfg)
+    let o ← Spec.Owner.ofPath? o
+    let sp ← Spec.aspect o a
+    pure (reply (orAbsent (Model.aspect o a)) sp (Model.devKind o a))
+  | ["beh", cfg, k] => do
+    guard (cfgs.contains cfg)
+    let sp ← Spec.assoc k Spec.behaviours
+    pure (reply (orAbsent (Spec.assoc k Model.behaviours)) sp (Model.devBeh k))
   | ["static", cfg, "order"] => do guard (cfgs.contains cfg); pure (reply "consistent" "consistent" "-")
   | ["static", cfg, "eval"] => do guard (cfgs.contains cfg); pure (reply "ok" "ok" "-")
   | ["same", a, b] => do guard (cfgs.contains a ∧ cfgs.contains b); pure (reply "equal" "equal" "-")
